@@ -17,6 +17,9 @@ CHECKS = {
  "C03": ("other", "inductive invariant over all slice-header stores of the package (enumerated from go/ssa): slot-0 provenance analysis + linear-arithmetic entailment (Fourier-Motzkin) of len <= capacity from path guards under the induction hypothesis; who-may-write check on the capacity word; return-case equations for the observers", "DESIGN.md §3 R-CAP/R-CAPEQ/R-SLOT0, §4 C03",
    "INV: capacity word == 0 or len(header) <= capacity word, for every header any stack ever holds. Base: newStack (word = request+1, backing array made with it). Frame: the word is written nowhere else, slot 0 always keeps the same configuration (provenance of every stored header; element stores/bulk copies use slots >= 1). Step: each of the 10 header stores of the package keeps INV on every path (linear entailment from isFull()==false on the very header extended / Insert's guard). Observers Len/Cap/Avail/IsFull/isFull are proved equal to their linear forms, which gives Cap()==k, Avail()==k-Len(), IsFull()==(Len()==k), -1/-1/false without capacity, and Len() <= k for all sequential histories of any calls.",
    "Level other: hand-written domains; which surplus values are dropped (order) is not decided; Defrag's truncation inherits the range assumption of C08; concurrency is C10."),
+ "C20": ("other", "effect (write-set) analysis of Reveal's call-graph scope + value-provenance check of the single slot store and the single expression store with path facts + allocation census + lock re-entrancy analysis over held regions (CFG reachability, parameter-rooted lock summaries) + panic-site census restricted to the scope (go/ssa)", "DESIGN.md §3 R-PROV/R-LOCK, §4 C20",
+   "Reveal's transitive write set contains no header store, configuration write or append (no stack changes length, kind or flags); its only slot store re-stores the stack found at that index or hoists its only child exactly under the stated condition (non-NOT, one element, Stack/Condition child, neither parenthetical); its only expression store returns the Condition's own expression stack; nothing is constructed (depth cannot grow); no held lock is re-acquired (no self-deadlock); no panic site in the scope.",
+   "Necessary conditions (level other): equality of the leaf sequence and of the fully-unwrapped forms over all trees is not decided."),
  "C08": ("other", "whole-package panic-site census: index/slice bounds discharged by linear integer entailment (Fourier-Motzkin over path facts with overflow-aware arithmetic atoms, inductive loop bounds, by-case inlining of length helpers, interprocedural preconditions); nil/reflect/type-assertion/division sites discharged by path-sensitive facts (go/ssa)", "DESIGN.md §3 R-BND/R-NIL/R-REFL/R-CANIF/R-TA/R-DIV, §4 C08",
    "Every instruction of the package that can panic on an argument value - index, slice and string-index expressions (about 110 non-trivial sites), nil dereferences (about 1460), panicking reflect.Value calls, unchecked type assertions, integer divisions - is proved safe on every path for unconstrained 64-bit integers (sums/differences are related to their operands only where overflow is excluded, so MinInt/MaxInt are covered) and arbitrary element values (typed nils of any depth, zero Stacks/Conditions, zero reflect.Values, unexported struct fields), or turned into a precondition checked at every call site; exported entry points may require nothing. Element writes and user-visible element reads on a stack need index >= 1, so the configuration slot cannot be written or returned through any index, and no element write is reachable with an out-of-range index.",
    "Level other: the census is close to a proof of panic freedom but the domains are hand-written. One site assumed (Defrag's truncation index; DESIGN.md). '-k addresses the k-th from the end' is decided only as the proved result range of the index translation; panics inside user closures/String() methods and runtime panics (out of memory, stack overflow through self-containing stacks) are excluded."),
